@@ -3,8 +3,46 @@ From Coq Require Import List NArith ZArith Bool.
 Import ListNotations.
 From Verif Require Import Base.Val gen.Tables_C49 C49.Model_C49 C49.Spec_C49 C49.Proofs_C49.
 
+(* IUSE, REQUIRED_USE, *DEPEND (and PROPERTIES/RESTRICT from EAPI 8) = the ebuild's own value
+   followed by the value of every sourcing in the inherit tree, for ALL programs and inherit
+   trees in which no sourced eclass unsets the variable (the recorded known class) *)
+Theorem accumulates_partial : forall eapi v p,
+  (eapi <= 9)%N -> pms_accumulated eapi v = true -> known_class eapi v p = false ->
+  final_value eapi v p = spec_accumulated eapi v p.
+Proof. exact accumulates_proof. Qed.
+Print Assumptions accumulates_partial.
+
+(* ... and without that restriction the statement is false of the faithful model *)
+Theorem accumulates_refuted : ~ (forall eapi v p,
+  (eapi <= 9)%N -> pms_accumulated eapi v = true -> final_value eapi v p = spec_accumulated eapi v p).
+Proof. exact accumulates_refuted_proof. Qed.
+Print Assumptions accumulates_refuted.
+
+(* every other key takes the final value of the whole execution (no restriction) *)
+Theorem others_final : forall eapi v p,
+  (eapi <= 9)%N -> pms_accumulated eapi v = false -> final_value eapi v p = spec_final v p.
+Proof. exact others_final_proof. Qed.
+Print Assumptions others_final.
+
+(* the emitted metadata mapping as a whole *)
+Theorem metadata_spec : forall eapi p,
+  (eapi <= 9)%N ->
+  (forall v, In v (metadata_keys eapi) -> pms_accumulated eapi v = true -> known_class eapi v p = false) ->
+  metadata eapi p =
+  filter (fun kv => negb (is_nil (snd kv))) (map (fun v => (v, spec_value eapi v p)) (metadata_keys eapi)).
+Proof. exact metadata_spec_proof. Qed.
+Print Assumptions metadata_spec.
+
 (* INHERITED (pkg.inherited) names every eclass sourced, directly or indirectly, once *)
 Theorem inherited_all_sourced : forall p,
   NoDup (inherited p) /\ forall n, In n (inherited p) <-> sourced n p.
 Proof. exact inherited_all_sourced_proof. Qed.
 Print Assumptions inherited_all_sourced.
+
+(* DEFINED_PHASES lists exactly the phases whose function the ebuild or a sourced eclass defines, '-' when none *)
+Theorem defined_phases_exact : forall eapi p,
+  (forall s, In s (defined_phases eapi p) <-> exists f, In (s, f) (phases eapi) /\ defines f p)
+  /\ (defined_phases eapi p = [] -> defined_phases_key eapi p = [dash])
+  /\ (defined_phases eapi p <> [] -> defined_phases_key eapi p = defined_phases eapi p).
+Proof. exact defined_phases_exact_proof. Qed.
+Print Assumptions defined_phases_exact.
